@@ -10,12 +10,14 @@ C05 line protocol.  One line = one whole case (initial state, configuration, bod
     dest    `-` (absent) or `<mode>:<hex content>` (`<mode>:-` = empty file)
     part    idem
     raises  0/1: the with-block ends by raising
-    writes  `-` or `,`-separated hex strings, one per write call
-    plan    `-` or `,`-separated `<call index>:<errno>` (that call fails) / `<call index>:A`
+    writes  `-` or the `,`-separated calls of the with-block on the file object: a hex string = one
+            write call, `F` = flush(), `C` = close()
+    plan    `-` or `,`-separated `<call index>:<errno>` (that call fails; numbers from 1000 on name
+            exception classes that are not errno-carrying OSErrors) / `<call index>:A`
             (the destination appears just before that call)
 
 Output: `<first save> | <retry>` where the retry is the same save run again on the resulting
-file system with no fault and a body that does not raise; each half is
+file system with no fault and a body that only writes and does not raise; each half is
   out=<ok|body|os:<errno>> calls=<n> dest=<-|mode:hex> part=<-|mode:hex>
 -/
 namespace C05.Driver
@@ -35,11 +37,15 @@ def parseFile? (s : String) : Option (Option Inode) :=
     | _, _ => none
   | _ => none
 
-def parseWrites? (s : String) : Option (List (Bytes × Nat)) :=
+def parseOp? (w : String) : Option Op :=
+  if w = "F" then some .flush else if w = "C" then some .close else
+  (bytesOfHex? w).map (fun b => Op.write b 0)
+
+def parseWrites? (s : String) : Option (List Op) :=
   if s = "-" then some [] else
   (splitOnChar s ',').foldr (fun w acc =>
-    match acc, bytesOfHex? w with
-    | some l, some b => some ((b, 0) :: l)
+    match acc, parseOp? w with
+    | some l, some o => some (o :: l)
     | _, _ => none) (some [])
 
 def parsePlan? (s : String) : Option (List (Nat × Act)) :=
@@ -92,8 +98,9 @@ def handle (line : String) : String :=
       [some raises], some writes, some plan =>
       let cfg : Cfg := ⟨ow, owp, rm, txt, perms⟩
       let (fs0, e) := mkFS dest part umask
-      let r := runSave cfg ⟨writes, raises⟩ (planOf plan) fs0 e
-      let r2 := runSave cfg ⟨writes, false⟩ noFaults r.2.fs e
+      let r := runScript cfg ⟨writes, raises⟩ (planOf plan) fs0 e
+      -- the retry writes the same data (it neither flushes nor closes the file itself)
+      let r2 := runScript cfg ⟨writes.filter (fun o => o matches Op.write _ _), false⟩ noFaults r.2.fs e
       s!"{showRes r} | {showRes r2}"
     | _, _, _, _, _, _, _, _ => "bad-op"
   | _ => "bad-op"
